@@ -81,7 +81,14 @@ func replayChainSync(idx int, line []byte, prop string, seed int, root string, r
 		if prop == "C02" && class != "tx" {
 			return
 		}
-		m := common.Mismatch{Prop: prop, Sig: fmt.Sprintf("chainsync:%s:%s", class, last), Trace: idx, Step: step,
+		sig := fmt.Sprintf("chainsync:%s:%s", class, last)
+		for i := 0; i <= step && i < len(tr.Steps); i++ {
+			if tr.Steps[i].Op == "StartDuringReorg" && last != "StartDuringReorg" {
+				sig += "|ctx=after:StartDuringReorg" // open finding F7 is identified by this history
+				break
+			}
+		}
+		m := common.Mismatch{Prop: prop, Sig: sig, Trace: idx, Step: step,
 			What: what, Observed: obs, Expected: exp}
 		cut := tr
 		if step >= 0 && step+1 < len(tr.Steps) {
@@ -224,6 +231,22 @@ func (w *csWorld) apply(op string, a *csArgs) error {
 		var fake chainhash.Hash
 		fake[0], fake[1], fake[31] = 0xde, 0xad, byte(a.Pos)
 		e.chain.SendStaleDisconnect(&mockchain.Block{Hash: fake, Height: h, Time: chainT0})
+	case "StartDuringReorg":
+		e.chain.DuringRescan = func() {
+			removed := e.chain.Disconnect(a.D)
+			w.lastDisc = removed[len(removed)-1]
+			w.ids = w.ids[:len(w.ids)-a.D]
+			for i := 0; i < a.N; i++ {
+				if i == 0 {
+					w.extend(a.Txs)
+				} else {
+					w.extend(nil)
+				}
+			}
+		}
+		if err := e.start(); err != nil {
+			return err
+		}
 	case "Stop":
 		e.stop()
 	case "Start":
